@@ -5,12 +5,14 @@ usage: seed_matrix.py [--all-props] [seed-id ...]"""
 import os, sys, json, glob, subprocess, tempfile, shutil, re, concurrent.futures as cf
 ENV = dict(os.environ, GOFLAGS="-mod=mod", GOPROXY="off", GOSUMDB="off", GOTOOLCHAIN="local", VERIF_DIR="/verif")
 ALL = [json.loads(l)['id'] for l in open('/verif/properties.jsonl')]
+SNAP = tempfile.mkdtemp(prefix='seedsnap-')
+subprocess.run(['rsync', '-a', '--exclude', '.git', '/repo/', SNAP + '/'], check=True)
 def one(seed, props):
     d = os.path.join('/verif/seeded', seed)
     scratch = tempfile.mkdtemp(prefix='seedmx-')
     res = {}
     try:
-        subprocess.run(['rsync', '-a', '--exclude', '.git', '/repo/', scratch + '/'], check=True)
+        subprocess.run(['rsync', '-a', '--exclude', '.git', SNAP + '/', scratch + '/'], check=True)
         r = subprocess.run('patch -p1 -s < %s/patch.diff' % d, cwd=scratch, shell=True, capture_output=True, text=True)
         if r.returncode != 0:
             return seed, {"error": "patch does not apply: " + r.stdout[-200:]}
@@ -29,7 +31,7 @@ def main():
     out_path = '/verif/seeded/MATRIX.json'
     matrix = json.load(open(out_path)) if os.path.exists(out_path) else {}
     jobs = []
-    with cf.ThreadPoolExecutor(max_workers=3) as ex:
+    with cf.ThreadPoolExecutor(max_workers=4) as ex:
         for s in seeds:
             own = json.load(open('/verif/seeded/%s/meta.json' % s))['breaks_property']
             props = ALL if allp else [own]
@@ -42,4 +44,7 @@ def main():
             print(s, "caught by", caught if caught else "NONE", "| own:", res.get(own))
             sys.stdout.flush()
             json.dump(matrix, open(out_path, 'w'), indent=1, sort_keys=True)
-main()
+try:
+    main()
+finally:
+    shutil.rmtree(SNAP, ignore_errors=True)
